@@ -1511,3 +1511,517 @@ Proof.
   replace fuel with (S (S8 (fuel - 9))) by (unfold S8; lia).
   apply ir_encoder_append_bytes_fuel; auto; unfold body_fuel; lia.
 Qed.
+
+(* ------------------------------------------------------------------ *)
+(** ** decoder_read_bytes *)
+
+Definition rb_s1 : stmt :=
+  SAssign (PVar "pos") I64 (ECall "decoder_free" [ARef (PVar "self_p"); AVal U64 ab_arg]).
+Definition rb_c5 : expr := EBin OEq U64 (ERead (PVar "pos_in_byte")) (ECast U64 (EConst 0)).
+Definition rb_memcpy : stmt :=
+  SMemcpy (PVar "buf_p") (EConst 0) (PField (PVar "self_p") "buf_p") (ERead (PVar "byte_pos"))
+          (ERead (PVar "size")).
+Definition rb_A : stmt :=
+  SAssign (PIndex (PVar "buf_p") (ERead (PVar "i"))) U8
+    (EBin OShl I32 (ERead (PIndex (PField (PVar "self_p") "buf_p") ab_idx)) (ERead (PVar "pos_in_byte"))).
+Definition rb_B : stmt :=
+  SAssign (PIndex (PVar "buf_p") (ERead (PVar "i"))) U8
+    (EBin OOr I32 (ERead (PIndex (PVar "buf_p") (ERead (PVar "i"))))
+       (EBin OShr I32
+          (ERead (PIndex (PField (PVar "self_p") "buf_p") (EBin OAdd U64 ab_idx (ECast U64 (EConst 1)))))
+          (EBin OSub U64 (EConst 8) (ERead (PVar "pos_in_byte"))))).
+Definition rb_body : list stmt := [rb_A; rb_B].
+Definition rb_for : stmt := SFor [SAssign (PVar "i") U64 (EConst 0)] nnbi_c nnbi_step rb_body.
+
+Lemma rb_body_eq :
+  f_body (fn_of "decoder_read_bytes") =
+  [rb_s1; ab_s2; ab_s3; ab_s4; SIf rb_c5 [rb_memcpy] [rb_for]].
+Proof. reflexivity. Qed.
+
+Lemma rb_frag_c5 M c src n vi vp vbp pib : (body_fuel <= M)%nat ->
+  eval helpers_ir M (ab_env c src n vi vp vbp (VInt pib)) rb_c5 =
+  ROk (ab_env c src n vi vp vbp (VInt pib), truth (pib =? 0)).
+Proof. intros H. fuel_split M H. step2. reflexivity. Qed.
+
+Lemma copy_elems_memcpy2 dst src s n : 0 <= s -> 0 <= n ->
+  copy_elems (map VInt dst) 0 (map VInt src) (Z.to_nat s) (Z.to_nat n) =
+  match memcpy dst 0 src s n with
+  | COk r => ROk (map VInt r) | COob => RFail FOob | CUb => RFail FUb end.
+Proof.
+  intros Hs Hn. unfold memcpy.
+  pose proof (copy_elems_memcpy src (Z.to_nat n) dst 0 (Z.to_nat s) 0) as H.
+  rewrite !Nat.add_0_r in H. rewrite H. rewrite Z2Nat.id by lia. reflexivity.
+Qed.
+
+Lemma rb_frag_memcpy M b sz ps dst n vi vp bp vpib : (body_fuel <= M)%nat -> 0 <= bp -> 0 <= n ->
+  exec helpers_ir M (ab_env (cursor_val b sz ps) dst n vi vp (VInt bp) vpib) rb_memcpy =
+  match memcpy dst 0 b bp n with
+  | COk d' => ROk (ab_env (cursor_val b sz ps) d' n vi vp (VInt bp) vpib, FNormal)
+  | COob => RFail FOob | CUb => RFail FUb end.
+Proof.
+  intros H Hbp Hn. fuel_split M H. step2.
+  replace (n <? 0) with false by lia. replace (bp <? 0) with false by lia. step2.
+  rewrite copy_elems_memcpy2 by lia.
+  destruct (memcpy dst 0 b bp n); step2; reflexivity.
+Qed.
+
+Definition rb_iter (b : list Z) (bp pib : Z) (dst : list Z) (i : Z) : cres (list Z) :=
+  let+ a := rd b (bp + i) in
+  let+ d1 := wr dst i (u8 (Z.shiftl a pib)) in
+  let+ c := rd b (bp + i + 1) in
+  let+ old := rd d1 i in
+  wr d1 i (u8 (Z.lor old (Z.shiftr c (8 - pib)))).
+
+Lemma rb_frag_body M b sz ps dst n i vp bp pib : (body_fuel <= M)%nat -> bytes_ok b ->
+  0 <= i < 1152921504606846976 -> 0 <= bp < 1152921504606846976 -> 0 < pib < 8 ->
+  exec_list helpers_ir M (ab_env (cursor_val b sz ps) dst n (VInt i) vp (VInt bp) (VInt pib)) rb_body =
+  match rb_iter b bp pib dst i with
+  | COk d' => ROk (ab_env (cursor_val b sz ps) d' n (VInt i) vp (VInt bp) (VInt pib), FNormal)
+  | COob => RFail FOob | CUb => RFail FUb end.
+Proof.
+  intros H Bb Hi Hbp Hpib. fuel_split M H. unfold rb_iter.
+  step2. rewrite !(u64_id (bp + i)) by lia. rewrite vget_bytes_cbn.
+  destruct (rd b (bp + i)) as [a| |] eqn:Ra; [|step2; reflexivity|step2; reflexivity].
+  pose proof (rd_is_byte _ _ _ Bb Ra) as Ha.
+  step2. replace ((pib <? 0) || (32 <=? pib)) with false by lia. step2.
+  replace (a <? 0) with false by (unfold is_byte in Ha; lia). step2.
+  rewrite (shl_byte_in_s32 a pib Ha) by lia. step2.
+  rewrite vset_bytes_cbn.
+  destruct (wr dst i (u8 (Z.shiftl a pib))) as [d1| |] eqn:W1; [|step2; reflexivity|step2; reflexivity].
+  step2. rewrite vget_bytes_cbn.
+  destruct (rd d1 i) as [old| |] eqn:Ro.
+  2:{ step2. destruct (rd b (bp + i + 1)) eqn:Rc; [reflexivity|reflexivity|destruct (rd_not_ub _ _ Rc)]. }
+  2:{ destruct (rd_not_ub _ _ Ro). }
+  step2. rewrite !(u64_id (bp + i)), !(u64_id (bp + i + 1)) by lia. rewrite vget_bytes_cbn.
+  destruct (rd b (bp + i + 1)) as [c| |] eqn:Rc; [|step2; reflexivity|destruct (rd_not_ub _ _ Rc)].
+  step2. rewrite !(u64_id (8 - pib)) by lia.
+  replace ((8 - pib <? 0) || (32 <=? 8 - pib)) with false by lia. step2.
+  rewrite vset_bytes_cbn.
+  destruct (wr d1 i (u8 (Z.lor old (Z.shiftr c (8 - pib))))) as [d2| |] eqn:W2; step2; reflexivity.
+Qed.
+
+Lemma read_bytes_loop_S j b bp pib dst i :
+  read_bytes_loop (S j) b bp pib dst i =
+  let+ d2 := rb_iter b bp pib dst i in read_bytes_loop j b bp pib d2 (i + 1).
+Proof.
+  cbn [read_bytes_loop]. unfold rb_iter.
+  destruct (rd b (bp + i)); cbn [cbind]; auto.
+  destruct (wr dst i _) as [d1| |]; cbn [cbind]; auto.
+  destruct (rd b (bp + i + 1)); cbn [cbind]; auto.
+  destruct (rd d1 i); cbn [cbind]; auto.
+Qed.
+
+Lemma rb_loop M b n vp bp pib sz ps : (body_fuel <= M)%nat -> bytes_ok b ->
+  0 <= n < 1152921504606846976 -> 0 <= bp < 1152921504606846976 -> 0 < pib < 8 ->
+  forall j dst i k, 0 <= i -> i + Z.of_nat j = n -> (j < k)%nat ->
+  for_loop helpers_ir M nnbi_c nnbi_step rb_body k
+    (ab_env (cursor_val b sz ps) dst n (VInt i) vp (VInt bp) (VInt pib)) =
+  match read_bytes_loop j b bp pib dst i with
+  | COk d' => ROk (ab_env (cursor_val b sz ps) d' n (VInt n) vp (VInt bp) (VInt pib), FNormal)
+  | COob => RFail FOob | CUb => RFail FUb end.
+Proof.
+  intros HM Bb Hn Hbp Hpib. induction j as [|j IH]; intros dst i k Hi Hj Hk.
+  - destruct k as [|k]; [lia|]. cbn [for_loop read_bytes_loop].
+    rewrite ab_frag_c by auto. wcbn.
+    replace (i <? n) with false by lia. cbn [truth Z.eqb].
+    replace i with n by lia. reflexivity.
+  - destruct k as [|k]; [lia|]. rewrite read_bytes_loop_S. cbn [for_loop].
+    rewrite ab_frag_c by auto. wcbn.
+    replace (i <? n) with true by lia. cbn [truth Z.eqb].
+    rewrite rb_frag_body by (auto; lia).
+    destruct (rb_iter b bp pib dst i) as [d2| |]; [|reflexivity|reflexivity].
+    wcbn. rewrite ab_frag_step by (auto; lia). wcbn.
+    rewrite (IH d2 (i + 1) k) by lia. cbn [cbind]. reflexivity.
+Qed.
+
+Lemma body_read_bytes L b sz ps dst n : (body_fuel <= L)%nat ->
+  in_s64 sz = true -> in_s64 ps = true -> bytes_ok b ->
+  0 <= n < 1152921504606846976 -> (Z.to_nat n < L)%nat ->
+  match read_bytes (mkCur b sz ps) dst n with
+  | COk (s', d') => exists vi vp vbp vpib fl,
+      exec_list helpers_ir (S8 L) (ab_env (cursor_val b sz ps) dst n VUndef VUndef VUndef VUndef)
+        (f_body (fn_of "decoder_read_bytes")) =
+      ROk (ab_env (cur_val s') d' n vi vp vbp vpib, fl) /\ (fl = FNormal \/ fl = FReturn None)
+  | COob =>
+      exec_list helpers_ir (S8 L) (ab_env (cursor_val b sz ps) dst n VUndef VUndef VUndef VUndef)
+        (f_body (fn_of "decoder_read_bytes")) = RFail FOob
+  | CUb =>
+      exec_list helpers_ir (S8 L) (ab_env (cursor_val b sz ps) dst n VUndef VUndef VUndef VUndef)
+        (f_body (fn_of "decoder_read_bytes")) = RFail FUb
+  end.
+Proof.
+  intros HL Hsz Hps Bb Hn Hk.
+  assert (E : exec_list helpers_ir (S8 L) (ab_env (cursor_val b sz ps) dst n VUndef VUndef VUndef VUndef)
+                (f_body (fn_of "decoder_read_bytes")) =
+              match decoder_free (mkCur b sz ps) (u64 (8 * n)) with
+              | COk (s1, p) =>
+                if p <? 0 then ROk (ab_env (cur_val s1) dst n VUndef (VInt p) VUndef VUndef, FReturn None)
+                else
+                  if Z.rem p 8 =? 0
+                  then match memcpy dst 0 (buf s1) (p ÷ 8) n with
+                       | COk d' => ROk (ab_env (cur_val s1) d' n VUndef (VInt p)
+                                          (VInt (p ÷ 8)) (VInt (Z.rem p 8)), FNormal)
+                       | COob => RFail FOob | CUb => RFail FUb end
+                  else match read_bytes_loop (Z.to_nat n) (buf s1) (p ÷ 8) (Z.rem p 8) dst 0 with
+                       | COk d' => ROk (ab_env (cur_val s1) d' n (VInt n) (VInt p)
+                                          (VInt (p ÷ 8)) (VInt (Z.rem p 8)), FNormal)
+                       | COob => RFail FOob | CUb => RFail FUb end
+              | COob => RFail FOob | CUb => RFail FUb end).
+  { rewrite rb_body_eq. unfold S8.
+    rewrite exec_list_cons. unfold rb_s1 at 1. rewrite exec_SAssign, eval_ECall.
+    assert (H4 : (body_fuel <= S (S (S (S L))))%nat) by lia.
+    rewrite (call_decoder_free_ge (S (S (S (S L))))
+               (ab_env (cursor_val b sz ps) dst n VUndef VUndef VUndef VUndef)
+               "self_p" ab_arg (u64 (8 * n)) b sz ps
+               H4 eq_refl Hsz Hps (ab_frag_arg _ _ _ _ _ _ _ _ H4)).
+    destruct (decoder_free {| buf := b; size := sz; pos := ps |} (u64 (8 * n))) as [[s1 p]| |] eqn:AL;
+      [|reflexivity|reflexivity].
+    destruct (alloc_gen_facts EOUTOFDATA _ _ _ _ eq_refl eq_refl AL Hsz Hps) as (Hsz1 & Hps1 & Hp & Hb1).
+    destruct s1 as [b1 sz1 ps1]. cbn [buf size pos] in *. subst b1.
+    unfold ab_env at 1. wcbn. rewrite resolve_PVar by lia. unfold env_set. wcbn.
+    change (conv I64 p) with (s64 p). rewrite (s64_id p Hp).
+    change [("self_p"%string, cur_val {| buf := b; size := sz1; pos := ps1 |});
+            ("buf_p"%string, bytes_val dst); ("size"%string, VInt n); ("i"%string, VUndef);
+            ("pos"%string, VInt p); ("byte_pos"%string, VUndef); ("pos_in_byte"%string, VUndef)]
+      with (ab_env (cursor_val b sz1 ps1) dst n VUndef (VInt p) VUndef VUndef).
+    rewrite exec_list_cons, ab_frag_s2 by lia. wcbn.
+    destruct (p <? 0) eqn:P; [reflexivity|].
+    rewrite exec_list_cons, ab_frag_s3 by (auto; lia). wcbn.
+    rewrite exec_list_cons, ab_frag_s4 by (auto; lia). wcbn.
+    rewrite exec_list_cons, exec_SIf, rb_frag_c5 by lia. wcbn.
+    rewrite truth_test.
+    assert (Hbp : 0 <= p ÷ 8 < 1152921504606846976).
+    { rewrite Z.quot_div_nonneg by lia. unfold in_s64 in Hp. lia. }
+    destruct (Z.rem p 8 =? 0) eqn:A.
+    - rewrite exec_list_cons, rb_frag_memcpy by lia.
+      destruct (memcpy dst 0 b (p ÷ 8) n) as [d'| |]; [|reflexivity|reflexivity].
+      wcbn. rewrite !exec_list_nil. reflexivity.
+    - rewrite exec_list_cons. unfold rb_for at 1. rewrite exec_SFor, ab_frag_init by lia. wcbn.
+      assert (Hpib : 0 < Z.rem p 8 < 8) by (rewrite Z.rem_mod_nonneg in * by lia; lia).
+      rewrite (rb_loop L b n (VInt p) (p ÷ 8) (Z.rem p 8) sz1 ps1 HL Bb Hn Hbp Hpib
+                 (Z.to_nat n) dst 0 L) by lia.
+      destruct (read_bytes_loop (Z.to_nat n) b (p ÷ 8) (Z.rem p 8) dst 0) as [d'| |];
+        [|reflexivity|reflexivity].
+      wcbn. rewrite !exec_list_nil. reflexivity. }
+  unfold read_bytes. rewrite E. clear E.
+  destruct (decoder_free {| buf := b; size := sz; pos := ps |} (u64 (8 * n))) as [[s1 p]| |];
+    cbn [cbind]; [|reflexivity|reflexivity].
+  destruct (p <? 0).
+  { do 5 eexists. split; [reflexivity|auto]. }
+  destruct (Z.rem p 8 =? 0).
+  - destruct (memcpy dst 0 (buf s1) (p ÷ 8) n); cbn [cbind]; [|reflexivity|reflexivity].
+    do 5 eexists. split; [reflexivity|auto].
+  - destruct (read_bytes_loop (Z.to_nat n) (buf s1) (p ÷ 8) (Z.rem p 8) dst 0); cbn [cbind];
+      [|reflexivity|reflexivity].
+    do 5 eexists. split; [reflexivity|auto].
+Qed.
+
+Theorem ir_decoder_read_bytes_fuel : forall L b sz ps dst n, (body_fuel <= L)%nat ->
+  in_s64 sz = true -> in_s64 ps = true -> bytes_ok b ->
+  0 <= n < 1152921504606846976 -> (Z.to_nat n < L)%nat ->
+  run helpers_ir (S (S8 L)) "decoder_read_bytes"%string [cursor_val b sz ps; bytes_val dst; VInt n] =
+  match read_bytes (mkCur b sz ps) dst n with
+  | COk (s', d') => ROk (None, [cursor_val (buf s') (size s') (pos s'); bytes_val d'; VInt n])
+  | COob => RFail FOob | CUb => RFail FUb end.
+Proof.
+  intros L b sz ps dst n HL Hsz Hps Bb Hn Hk.
+  pose proof (body_read_bytes L b sz ps dst n HL Hsz Hps Bb Hn Hk) as HB.
+  unfold run.
+  change (lookup "decoder_read_bytes" helpers_ir) with (Some (fn_of "decoder_read_bytes")).
+  cbv iota beta.
+  change (f_params (fn_of "decoder_read_bytes"))
+    with [("self_p", PByRef); ("buf_p", PByRef); ("size", PByVal U64)]%string.
+  rcbn. rewrite call_S. unfold call_body.
+  change (lookup "decoder_read_bytes" helpers_ir) with (Some (fn_of "decoder_read_bytes")).
+  cbv iota beta.
+  change (f_params (fn_of "decoder_read_bytes"))
+    with [("self_p", PByRef); ("buf_p", PByRef); ("size", PByVal U64)]%string.
+  change (f_locals (fn_of "decoder_read_bytes"))
+    with [("i", VUndef); ("pos", VUndef); ("byte_pos", VUndef); ("pos_in_byte", VUndef)]%string.
+  change (f_ret (fn_of "decoder_read_bytes")) with (@None ity).
+  rcbn. rewrite resolve_PVar by (unfold S8; lia). rcbn.
+  rewrite resolve_PVar by (unfold S8; lia). rcbn.
+  erewrite (eval_read_var_ge _ _ _ "$size") by (unfold S8; try reflexivity; lia). rcbn.
+  change (conv U64 n) with (u64 n). rewrite (u64_id n) by lia.
+  change [("self_p"%string, cursor_val b sz ps); ("buf_p"%string, bytes_val dst); ("size"%string, VInt n);
+          ("i"%string, VUndef); ("pos"%string, VUndef); ("byte_pos"%string, VUndef);
+          ("pos_in_byte"%string, VUndef)]
+    with (ab_env (cursor_val b sz ps) dst n VUndef VUndef VUndef VUndef).
+  destruct (read_bytes {| buf := b; size := sz; pos := ps |} dst n) as [[s' d']| |].
+  - destruct HB as (vi & vp & vbp & vpib & fl & -> & Hfl). unfold ab_env. rcbn.
+    destruct Hfl as [-> | ->]; reflexivity.
+  - rewrite HB. reflexivity.
+  - rewrite HB. reflexivity.
+Qed.
+
+Theorem ir_decoder_read_bytes : forall fuel b sz ps dst n,
+  in_s64 sz = true -> in_s64 ps = true -> bytes_ok b ->
+  0 <= n < 1152921504606846976 -> (Z.to_nat n + 50 <= fuel)%nat ->
+  run helpers_ir fuel "decoder_read_bytes"%string [cursor_val b sz ps; bytes_val dst; VInt n] =
+  match read_bytes (mkCur b sz ps) dst n with
+  | COk (s', d') => ROk (None, [cursor_val (buf s') (size s') (pos s'); bytes_val d'; VInt n])
+  | COob => RFail FOob | CUb => RFail FUb end.
+Proof.
+  intros fuel b sz ps dst n Hsz Hps Bb Hn Hf.
+  replace fuel with (S (S8 (fuel - 9))) by (unfold S8; lia).
+  apply ir_decoder_read_bytes_fuel; auto; unfold body_fuel; lia.
+Qed.
+
+(* ------------------------------------------------------------------ *)
+(** ** encoder_append_bytes as a callee; encoder_append_uintN *)
+
+Lemma call_append_bytes L e x y a n b sz ps src : (body_fuel <= L)%nat ->
+  lookup x e = Some (cursor_val b sz ps) -> lookup y e = Some (bytes_val src) ->
+  in_s64 sz = true -> in_s64 ps = true -> bytes_ok src ->
+  0 <= n < 1152921504606846976 -> (Z.to_nat n < L)%nat ->
+  eval helpers_ir (S8 L) e a = ROk (e, n) ->
+  call helpers_ir (S (S8 L)) e "encoder_append_bytes" [ARef (PVar x); ARef (PVar y); AVal U64 a] =
+  match append_bytes (mkCur b sz ps) src n with
+  | COk s' =>
+    match update x (cur_val s') e with
+    | Some e1 =>
+      match lookup y e1 with
+      | Some _ => match update y (bytes_val src) e1 with
+                  | Some e2 => ROk (e2, None) | None => RFail (FStuck "update") end
+      | None => RFail (FStuck ("unbound " +++ y))
+      end
+    | None => RFail (FStuck "update")
+    end
+  | COob => RFail FOob | CUb => RFail FUb end.
+Proof.
+  intros HL Hx Hy Hsz Hps Bs Hn Hk Ha.
+  pose proof (body_append_bytes L b sz ps src n HL Hsz Hps Bs Hn Hk) as HB.
+  assert (HM : (1 <= S8 L)%nat) by (unfold S8; lia).
+  remember (S8 L) as M eqn:EM.
+  rewrite call_S. unfold call_body.
+  change (lookup "encoder_append_bytes" helpers_ir) with (Some (fn_of "encoder_append_bytes")).
+  cbv iota beta.
+  change (f_params (fn_of "encoder_append_bytes"))
+    with [("self_p", PByRef); ("buf_p", PByRef); ("size", PByVal U64)]%string.
+  change (f_locals (fn_of "encoder_append_bytes"))
+    with [("i", VUndef); ("pos", VUndef); ("byte_pos", VUndef); ("pos_in_byte", VUndef)]%string.
+  change (f_ret (fn_of "encoder_append_bytes")) with (@None ity).
+  wcbn. rewrite (resolve_PVar _ M e x HM). wcbn.
+  unfold env_get at 1. rewrite Hx. wcbn.
+  rewrite (resolve_PVar _ M e y HM). wcbn.
+  unfold env_get at 1. rewrite Hy. wcbn. rewrite Ha. wcbn.
+  change (conv U64 n) with (u64 n). rewrite (u64_id n) by lia.
+  change [("self_p"%string, cursor_val b sz ps); ("buf_p"%string, bytes_val src); ("size"%string, VInt n);
+          ("i"%string, VUndef); ("pos"%string, VUndef); ("byte_pos"%string, VUndef);
+          ("pos_in_byte"%string, VUndef)]
+    with (ab_env (cursor_val b sz ps) src n VUndef VUndef VUndef VUndef).
+  destruct (append_bytes {| buf := b; size := sz; pos := ps |} src n) as [s'| |].
+  - destruct HB as (vi & vp & vbp & vpib & fl & -> & Hfl). unfold ab_env. wcbn.
+    unfold env_set at 1. rewrite Hx. wcbn.
+    destruct (update x (cur_val s') e) as [e1|]; wcbn; [|reflexivity].
+    unfold env_set. destruct (lookup y e1); wcbn; [|reflexivity].
+    destruct (update y (bytes_val src) e1); wcbn; [|reflexivity].
+    destruct Hfl as [-> | ->]; reflexivity.
+  - rewrite HB. reflexivity.
+  - rewrite HB. reflexivity.
+Qed.
+
+Definition ui_env (c : val) (w : Z) (vb : val) : env :=
+  [("self_p", c); ("value", VInt w); ("buf", vb)]%string.
+
+Lemma exec_assign_idx M e x j t a z : (2 <= M)%nat ->
+  eval helpers_ir M e a = ROk (e, z) ->
+  exec helpers_ir (S M) e (SAssign (PIndex (PVar x) (EConst j)) t a) =
+  let^ e3 := env_set e x [SelI j] (VInt (conv t z)) in ROk (e3, FNormal).
+Proof.
+  intros HM Ha. rewrite exec_SAssign, Ha. wcbn.
+  destruct M as [|[|M]]; try lia. reflexivity.
+Qed.
+
+Lemma ui_frag_val M c w vb : (body_fuel <= M)%nat ->
+  eval helpers_ir M (ui_env c w vb) (ERead (PVar "value")) = ROk (ui_env c w vb, w).
+Proof. intros H. fuel_split M H. symex. reflexivity. Qed.
+
+Lemma ui_frag_cast M c w vb : (body_fuel <= M)%nat ->
+  eval helpers_ir M (ui_env c w vb) (ECast U8 (ERead (PVar "value"))) = ROk (ui_env c w vb, u8 w).
+Proof. intros H. fuel_split M H. step2. reflexivity. Qed.
+
+Lemma ui_frag_shr M c w vb t k : (body_fuel <= M)%nat -> 0 <= k < ity_bits t ->
+  eval helpers_ir M (ui_env c w vb) (ECast U8 (EBin OShr t (ERead (PVar "value")) (EConst k))) =
+  ROk (ui_env c w vb, u8 (Z.shiftr w k)).
+Proof.
+  intros H Hk. fuel_split M H. step2.
+  replace ((k <? 0) || (ity_bits t <=? k)) with false by lia. step2. reflexivity.
+Qed.
+
+Lemma ui_frag_const M e k : (1 <= M)%nat -> eval helpers_ir M e (EConst k) = ROk (e, k).
+Proof. intros H. destruct M; [lia|reflexivity]. Qed.
+
+Lemma u8_u8 z : u8 (u8 z) = u8 z.
+Proof. unfold u8. apply Z.mod_mod. lia. Qed.
+
+Ltac comp_env_set :=
+  match goal with
+  | |- context [env_set ?e ?x ?ss ?v] =>
+      let r := eval cbv -[conv u8 u16 u32 u64 Z.shiftr cursor_val bytes_val Z.add Z.sub Z.mul] in (env_set e x ss v) in
+      change (env_set e x ss v) with r
+  end.
+
+Ltac ui_prologue f ps_ ls_ :=
+  unfold run;
+  change (lookup f helpers_ir) with (Some (fn_of f));
+  cbv iota beta;
+  change (f_params (fn_of f)) with ps_;
+  rcbn; rewrite call_S; unfold call_body;
+  change (lookup f helpers_ir) with (Some (fn_of f));
+  cbv iota beta;
+  change (f_params (fn_of f)) with ps_;
+  change (f_locals (fn_of f)) with ls_;
+  change (f_ret (fn_of f)) with (@None ity).
+
+Theorem ir_encoder_append_uint8_fuel : forall L b sz ps v, (body_fuel <= L)%nat ->
+  in_s64 sz = true -> in_s64 ps = true ->
+  run helpers_ir (S (S (S (S (S (S (S8 L))))))) "encoder_append_uint8"%string [cursor_val b sz ps; VInt v] =
+  match append_uint8 (mkCur b sz ps) v with
+  | COk s' => ROk (None, [cursor_val (buf s') (size s') (pos s'); VInt v])
+  | COob => RFail FOob | CUb => RFail FUb end.
+Proof.
+  intros L b sz ps v HL Hsz Hps.
+  assert (H8 : (body_fuel <= S8 L)%nat) by (unfold S8; lia).
+  ui_prologue "encoder_append_uint8"%string
+    [("self_p", PByRef); ("value", PByVal U8)]%string [("buf", VArr [VInt 0])]%string.
+  change (f_body (fn_of "encoder_append_uint8")) with
+    [SAssign (PIndex (PVar "buf") (EConst 0)) U8 (ERead (PVar "value"));
+     SExpr (ECall "encoder_append_bytes" [ARef (PVar "self_p"); ARef (PVar "buf"); AVal U64 (EConst 1)])].
+  rcbn. rewrite resolve_PVar by lia. rcbn.
+  erewrite (eval_read_var_ge _ _ _ "$value") by (try reflexivity; lia). rcbn.
+  change (conv U8 v) with (u8 v).
+  change [("self_p"%string, cursor_val b sz ps); ("value"%string, VInt (u8 v)); ("buf"%string, VArr [VInt 0])]
+    with (ui_env (cursor_val b sz ps) (u8 v) (VArr [VInt 0])).
+  rewrite exec_list_cons.
+  rewrite (exec_assign_idx _ _ "buf" 0 U8 _ (u8 v)) by (try apply ui_frag_val; lia).
+  change (conv U8 (u8 v)) with (u8 (u8 v)). comp_env_set. rcbn.
+  rewrite exec_list_cons, exec_SExpr, eval_ECall.
+  assert (Bs : bytes_ok [u8 (u8 v)]) by (repeat (constructor; [apply is_byte_u8|]); constructor).
+  assert (Hk : (Z.to_nat 1 < L)%nat) by (unfold body_fuel in HL; lia).
+  match goal with |- context [call helpers_ir (S (S8 L)) ?e "encoder_append_bytes"%string _] =>
+    rewrite (call_append_bytes L e "self_p" "buf" (EConst 1) 1 b sz ps [u8 (u8 v)] HL eq_refl eq_refl Hsz Hps
+               Bs ltac:(lia) Hk (ui_frag_const (S8 L) e 1 ltac:(unfold S8; lia)))
+  end.
+  unfold append_uint8.
+  destruct (append_bytes {| buf := b; size := sz; pos := ps |} [u8 (u8 v)] 1) as [s'| |];
+    [|reflexivity|reflexivity].
+  rcbn. rewrite exec_list_nil. rcbn. reflexivity.
+Qed.
+
+Ltac ui_assign j frag :=
+  rewrite exec_list_cons;
+  erewrite (exec_assign_idx _ _ "buf" j U8) by (try apply frag; unfold S8; simpl; lia);
+  change (conv U8 (u8 ?z)) with (u8 (u8 z)); rewrite ?u8_u8;
+  comp_env_set; rcbn.
+
+Ltac ui_call L b sz ps src n HL Hsz Hps :=
+  rewrite exec_list_cons, exec_SExpr, eval_ECall;
+  let Bs := fresh "Bs" in let Hk := fresh "Hk" in
+  assert (Bs : bytes_ok src) by (repeat (constructor; [apply is_byte_u8|]); constructor);
+  assert (Hk : (Z.to_nat n < L)%nat) by (unfold body_fuel in HL; lia);
+  match goal with |- context [call helpers_ir (S (S8 L)) ?e "encoder_append_bytes"%string _] =>
+    rewrite (call_append_bytes L e "self_p" "buf" (EConst n) n b sz ps src HL eq_refl eq_refl Hsz Hps
+               Bs ltac:(lia) Hk (ui_frag_const (S8 L) e n ltac:(unfold S8; lia)))
+  end.
+
+Ltac ui_epilogue b sz ps src n :=
+  destruct (append_bytes {| buf := b; size := sz; pos := ps |} src n) as [s'| |];
+    [|reflexivity|reflexivity];
+  rcbn; rewrite exec_list_nil; rcbn; reflexivity.
+
+Theorem ir_encoder_append_uint16_fuel : forall L b sz ps v, (body_fuel <= L)%nat ->
+  in_s64 sz = true -> in_s64 ps = true ->
+  run helpers_ir (S (S (S (S (S (S (S (S8 L)))))))) "encoder_append_uint16"%string
+      [cursor_val b sz ps; VInt v] =
+  match append_uint16 (mkCur b sz ps) v with
+  | COk s' => ROk (None, [cursor_val (buf s') (size s') (pos s'); VInt v])
+  | COob => RFail FOob | CUb => RFail FUb end.
+Proof.
+  intros L b sz ps v HL Hsz Hps.
+  ui_prologue "encoder_append_uint16"%string
+    [("self_p", PByRef); ("value", PByVal U16)]%string [("buf", VArr [VInt 0; VInt 0])]%string.
+  change (f_body (fn_of "encoder_append_uint16")) with
+    [SAssign (PIndex (PVar "buf") (EConst 0)) U8 (ECast U8 (EBin OShr I32 (ERead (PVar "value")) (EConst 8)));
+     SAssign (PIndex (PVar "buf") (EConst 1)) U8 (ECast U8 (ERead (PVar "value")));
+     SExpr (ECall "encoder_append_bytes" [ARef (PVar "self_p"); ARef (PVar "buf"); AVal U64 (EConst 2)])].
+  rcbn. rewrite resolve_PVar by lia. rcbn.
+  erewrite (eval_read_var_ge _ _ _ "$value") by (try reflexivity; lia). rcbn.
+  change (conv U16 v) with (u16 v).
+  change [("self_p"%string, cursor_val b sz ps); ("value"%string, VInt (u16 v));
+          ("buf"%string, VArr [VInt 0; VInt 0])]
+    with (ui_env (cursor_val b sz ps) (u16 v) (VArr [VInt 0; VInt 0])).
+  ui_assign 0 ui_frag_shr. ui_assign 1 ui_frag_cast.
+  ui_call L b sz ps [u8 (Z.shiftr (u16 v) 8); u8 (u16 v)] 2 HL Hsz Hps.
+  unfold append_uint16. ui_epilogue b sz ps [u8 (Z.shiftr (u16 v) 8); u8 (u16 v)] 2.
+Qed.
+
+Definition shr_assign (j : Z) (t : ity) (k : Z) : stmt :=
+  SAssign (PIndex (PVar "buf") (EConst j)) U8 (ECast U8 (EBin OShr t (ERead (PVar "value")) (EConst k))).
+Definition cast_assign (j : Z) : stmt :=
+  SAssign (PIndex (PVar "buf") (EConst j)) U8 (ECast U8 (ERead (PVar "value"))).
+Definition bytes_call (n : Z) : stmt :=
+  SExpr (ECall "encoder_append_bytes" [ARef (PVar "self_p"); ARef (PVar "buf"); AVal U64 (EConst n)]).
+
+Theorem ir_encoder_append_uint32_fuel : forall L b sz ps v, (body_fuel <= L)%nat ->
+  in_s64 sz = true -> in_s64 ps = true ->
+  run helpers_ir (S (S (S (S (S (S (S (S (S (S8 L)))))))))) "encoder_append_uint32"%string
+      [cursor_val b sz ps; VInt v] =
+  match append_uint32 (mkCur b sz ps) v with
+  | COk s' => ROk (None, [cursor_val (buf s') (size s') (pos s'); VInt v])
+  | COob => RFail FOob | CUb => RFail FUb end.
+Proof.
+  intros L b sz ps v HL Hsz Hps.
+  ui_prologue "encoder_append_uint32"%string
+    [("self_p", PByRef); ("value", PByVal U32)]%string
+    [("buf", VArr [VInt 0; VInt 0; VInt 0; VInt 0])]%string.
+  change (f_body (fn_of "encoder_append_uint32")) with
+    [shr_assign 0 U32 24; shr_assign 1 U32 16; shr_assign 2 U32 8; cast_assign 3; bytes_call 4].
+  unfold shr_assign, cast_assign, bytes_call.
+  rcbn. rewrite resolve_PVar by lia. rcbn.
+  erewrite (eval_read_var_ge _ _ _ "$value") by (try reflexivity; lia). rcbn.
+  change (conv U32 v) with (u32 v).
+  change [("self_p"%string, cursor_val b sz ps); ("value"%string, VInt (u32 v));
+          ("buf"%string, VArr [VInt 0; VInt 0; VInt 0; VInt 0])]
+    with (ui_env (cursor_val b sz ps) (u32 v) (VArr [VInt 0; VInt 0; VInt 0; VInt 0])).
+  ui_assign 0 ui_frag_shr. ui_assign 1 ui_frag_shr. ui_assign 2 ui_frag_shr. ui_assign 3 ui_frag_cast.
+  ui_call L b sz ps [u8 (Z.shiftr (u32 v) 24); u8 (Z.shiftr (u32 v) 16); u8 (Z.shiftr (u32 v) 8); u8 (u32 v)]
+          4 HL Hsz Hps.
+  unfold append_uint32.
+  ui_epilogue b sz ps [u8 (Z.shiftr (u32 v) 24); u8 (Z.shiftr (u32 v) 16); u8 (Z.shiftr (u32 v) 8); u8 (u32 v)] 4.
+Qed.
+
+Theorem ir_encoder_append_uint64_fuel : forall L b sz ps v, (body_fuel <= L)%nat ->
+  in_s64 sz = true -> in_s64 ps = true ->
+  run helpers_ir (S (S (S (S (S (S (S (S (S (S (S (S (S (S8 L)))))))))))))) "encoder_append_uint64"%string
+      [cursor_val b sz ps; VInt v] =
+  match append_uint64 (mkCur b sz ps) v with
+  | COk s' => ROk (None, [cursor_val (buf s') (size s') (pos s'); VInt v])
+  | COob => RFail FOob | CUb => RFail FUb end.
+Proof.
+  intros L b sz ps v HL Hsz Hps.
+  ui_prologue "encoder_append_uint64"%string
+    [("self_p", PByRef); ("value", PByVal U64)]%string
+    [("buf", VArr [VInt 0; VInt 0; VInt 0; VInt 0; VInt 0; VInt 0; VInt 0; VInt 0])]%string.
+  change (f_body (fn_of "encoder_append_uint64")) with
+    [shr_assign 0 U64 56; shr_assign 1 U64 48; shr_assign 2 U64 40; shr_assign 3 U64 32;
+     shr_assign 4 U64 24; shr_assign 5 U64 16; shr_assign 6 U64 8; cast_assign 7; bytes_call 8].
+  unfold shr_assign, cast_assign, bytes_call.
+  rcbn. rewrite resolve_PVar by lia. rcbn.
+  erewrite (eval_read_var_ge _ _ _ "$value") by (try reflexivity; lia). rcbn.
+  change (conv U64 v) with (u64 v).
+  change [("self_p"%string, cursor_val b sz ps); ("value"%string, VInt (u64 v));
+          ("buf"%string, VArr [VInt 0; VInt 0; VInt 0; VInt 0; VInt 0; VInt 0; VInt 0; VInt 0])]
+    with (ui_env (cursor_val b sz ps) (u64 v)
+            (VArr [VInt 0; VInt 0; VInt 0; VInt 0; VInt 0; VInt 0; VInt 0; VInt 0])).
+  ui_assign 0 ui_frag_shr. ui_assign 1 ui_frag_shr. ui_assign 2 ui_frag_shr. ui_assign 3 ui_frag_shr.
+  ui_assign 4 ui_frag_shr. ui_assign 5 ui_frag_shr. ui_assign 6 ui_frag_shr. ui_assign 7 ui_frag_cast.
+  ui_call L b sz ps
+    [u8 (Z.shiftr (u64 v) 56); u8 (Z.shiftr (u64 v) 48); u8 (Z.shiftr (u64 v) 40); u8 (Z.shiftr (u64 v) 32);
+     u8 (Z.shiftr (u64 v) 24); u8 (Z.shiftr (u64 v) 16); u8 (Z.shiftr (u64 v) 8); u8 (u64 v)]
+    8 HL Hsz Hps.
+  unfold append_uint64.
+  ui_epilogue b sz ps
+    [u8 (Z.shiftr (u64 v) 56); u8 (Z.shiftr (u64 v) 48); u8 (Z.shiftr (u64 v) 40); u8 (Z.shiftr (u64 v) 32);
+     u8 (Z.shiftr (u64 v) 24); u8 (Z.shiftr (u64 v) 16); u8 (Z.shiftr (u64 v) 8); u8 (u64 v)] 8.
+Qed.
